@@ -433,7 +433,7 @@ def _patch():
     _PATCHED[0] = True
 
 
-def run_edit(src, edit):
+def run_edit(src, edit, root=None):
     """perform one real edit; `edit` = {'op','kind','path','field','idx','code','trivia', options...}; returns item dict"""
     from fst import FST
     _patch()
@@ -489,7 +489,8 @@ def run_edit(src, edit):
     extra_seps = ()
     if kind == 'stmt' and edit['field'] == 'orelse' and edit['pkind'] == 'If':
         extra_seps = ('else', ':', 'elif')     # `else:` + lone `if` <-> `elif` header rewriting (option elif_)
-    root = FST(src, 'exec')
+    if root is None:
+        root = FST(src, 'exec')
     f = root
     for name, i in edit['path']:
         f = getattr(f.a, name).f if i is None else getattr(f.a, name)[i].f
@@ -498,7 +499,9 @@ def run_edit(src, edit):
     if tr is not None:
         opts['trivia'] = tuple(tr) if isinstance(tr, list) else tr
     try:
-        if op == 'delete':
+        if op == 'delete' and edit.get('how') == 'cut':
+            item['cut'] = getattr(f.a, edit['field'])[idx].f.cut(**opts).src
+        elif op == 'delete':
             getattr(f.a, edit['field'])[idx].f.remove(**opts)
         elif op == 'replace':
             getattr(f.a, edit['field'])[idx].f.replace(edit['code'], **opts)
@@ -512,6 +515,20 @@ def run_edit(src, edit):
     item['bad_spans'] = list(_CALLS)
     item['after'] = new_src
     item['changed'] = new_src != src
+    if op == 'delete' and kind == 'stmt':
+        # a deleted statement leaves no NEW text behind: every non-blank line of the result is a line of the original, a protected
+        # comment that lost its statement, a `pass` filler, or the remains of a line the statement shared with other code
+        before_set = {l.strip() for l in lines}
+        before_comments = {t.string.strip() for t in toks(src) if t.type == tokenize.COMMENT}
+        shares = lines[s[0]][:s[1]].strip() != '' or (lines[e[0]][e[1]:].strip() != '' and not lines[e[0]][e[1]:].strip().startswith('#'))
+        if not shares:
+            for l in new_src.split('\n'):
+                t = l.strip()
+                if t and t not in before_set and t not in before_comments and t != 'pass':
+                    item['violations'] = [{'cls': 'line-appeared', 'what': f'after deleting a whole statement the new line {l!r} exists which is '
+                                           'neither a line of the original nor a kept comment', 'detail': l}]
+                    item['outcome'] = 'violation'
+                    return item
     try:
         ast.parse(new_src)
     except SyntaxError:
@@ -843,4 +860,294 @@ def two_step_cases(arg):
         if not it['violations']:
             it.pop('after', None)
             it['src'] = it['src'][:300]
+    return out
+
+
+# ---------------------------------------------------------------------------------------------------------------------
+# histories with trivia-changing ACCESSORS: reads that fill the caches of every ancestor, an accessor that changes trivia
+# text of a statement (line comment, docstring, parentheses), then a structural edit of an enclosing block on the SAME live
+# tree.  After every step everything outside the affected element is byte-identical.
+
+ACC_COMMENTS = ['the current state of the world, explained at length', 'x', '  # full one', None]
+
+
+def _fill_caches(root, f):
+    """what a user does when looking around: source / location of the node and of everything above it"""
+    n = f
+    while n is not None:
+        try:
+            _ = n.loc, n.bloc
+            _ = n.src if n.parent is not None else None
+            if n.is_stmtlike:
+                _ = n.own_src() if hasattr(n, 'own_src') else None
+        except Exception:
+            pass
+        n = n.parent
+    _ = root.lines, root.src
+
+
+def run_history(src, hist):
+    """hist = {'op': 'history', 'path' (to a statement list owner), 'pkind', 'field', 'idx', 'acc': accessor spec,
+    'up': how many enclosing statements above to edit, 'edit': 'cut'|'remove'|'replace', 'trivia'}"""
+    from fst import FST
+    _patch()
+    item = {'src': src, 'edit': hist, 'op': 'history', 'field': hist['pkind'] + '.' + hist['field'], 'violations': [], 'changed': True,
+            'outcome': 'ok', 'bad_spans': []}
+    root = FST(src, 'exec')
+    f = _nav(root, hist['path'])
+    stmt = getattr(f.a, hist['field'])[hist['idx']].f
+    _fill_caches(root, stmt)
+    lines = src.split('\n')
+    acc = hist['acc']
+    try:
+        if acc[0] == 'comment':
+            stmt.put_line_comment(acc[1], full=acc[2]) if acc[2] else stmt.put_line_comment(acc[1])
+        elif acc[0] == 'docstr':
+            stmt.put_docstr(acc[1])
+        elif acc[0] == 'par':
+            v = getattr(stmt.a, 'value', None)
+            if v is None:
+                item['outcome'] = 'skipped'
+                return item
+            v.f.par(force=True) if acc[1] else v.f.unpar()
+        src2 = root.src
+    except Exception as ex:
+        item['outcome'] = 'raised-accessor:' + type(ex).__name__
+        return item
+    item['after_accessor'] = src2
+    # oracle for the accessor step: only lines of the statement itself may change
+    st = ast.parse(src)
+    node = st
+    for name, i in hist['path']:
+        node = getattr(node, name) if i is None else getattr(node, name)[i]
+    sn = getattr(node, hist['field'])[hist['idx']]
+    s0, e0 = _span(lines, sn)
+    l2 = src2.split('\n')
+    shares = lines[s0[0]][:s0[1]].strip() != '' or (lines[e0[0]][e0[1]:].strip() != '' and not lines[e0[0]][e0[1]:].strip().startswith('#')) \
+        or (s0[0] > 0 and lines[s0[0] - 1].rstrip().endswith('\\') and
+            not any(t.type == tokenize.COMMENT and t.start[0] == s0[0] for t in toks(src)))
+    if shares:
+        # the statement shares its logical line with other code: the accessor may legitimately re-lay out that line (block
+        # normalisation); only tokens are compared: every token but the statement's own line comment survives in order
+        try:
+            tb = [t.string for t in toks(src) if t.type not in NONSIG and not (t.type == tokenize.COMMENT and t.start[0] - 1 == e0[0])]
+            ta = [t.string for t in toks(src2) if t.type not in NONSIG]
+        except Exception:
+            tb = ta = []
+        it_ = iter(ta)
+        if not all(x in it_ for x in tb if x not in (';', '(', ')')):
+            item['violations'] = [{'cls': 'accessor-outside-text-changed', 'what': f'{acc[0]} accessor lost a token outside its statement',
+                                   'detail': acc}]
+            item['outcome'] = 'violation'
+            item['after'] = src2
+            return item
+    elif l2[:s0[0]] != lines[:s0[0]] or l2[len(l2) - (len(lines) - e0[0] - 1):] != lines[e0[0] + 1:]:
+        item['violations'] = [{'cls': 'accessor-outside-text-changed', 'what': f'{acc[0]} accessor changed lines outside its statement',
+                               'detail': acc}]
+        item['outcome'] = 'violation'
+        item['after'] = src2
+        return item
+    try:
+        tree2 = ast.parse(src2)
+    except SyntaxError:
+        item['outcome'] = 'unparsable-accessor'
+        return item
+    # structural edit of an enclosing statement (same live tree); judged against src2 with the single-edit oracle
+    path = list(hist['path'])
+    fld, idx = hist['field'], hist['idx']
+    for _ in range(hist['up']):
+        # go up to the statement list that contains the owner of (fld, idx)
+        while path and not (path[-1][1] is not None and path[-1][0] in STMT_FIELDS):
+            path.pop()
+        if not path:
+            break
+        fld, idx = path.pop()
+    owner = tree2
+    for name, i in path:
+        owner = getattr(owner, name) if i is None else getattr(owner, name)[i]
+    if not isinstance(getattr(owner, fld, None), list) or (len(getattr(owner, fld)) < 2 and hist['edit'] != 'replace'):
+        item['outcome'] = 'no-enclosing'
+        return item
+    edit = {'op': 'replace' if hist['edit'] == 'replace' else 'delete', 'how': hist['edit'], 'kind': 'stmt', 'path': path,
+            'pkind': type(owner).__name__, 'field': fld, 'idx': idx, 'code': 'zz = 9  # new1' if hist['edit'] == 'replace' else None,
+            'trivia': hist['trivia'], 'options': {}}
+    it2 = run_edit(src2, edit, root=root)
+    item['outcome'] = it2['outcome']
+    item['violations'] = it2['violations']
+    item['bad_spans'] = it2.get('bad_spans', [])
+    item['after'] = it2.get('after')
+    if it2.get('cut') is not None and acc[0] == 'comment' and acc[1] and hist['up'] >= 1 and not it2['violations']:
+        # the new comment travels with the cut block, whole and exactly once
+        txt = acc[1].strip().lstrip('#').strip()
+        if (it2['cut'] + '\n' + (it2.get('after') or '')).count(txt) != 1 and src2.count(txt) == 1:
+            item['violations'] = [{'cls': 'comment-split', 'what': 'the comment put on the last statement is not whole / not exactly once in '
+                                   '(cut block + rest)', 'detail': txt}]
+            item['outcome'] = 'violation'
+    item['field'] = edit['pkind'] + '.' + fld
+    return item
+
+
+def history_cases(arg):
+    src0, seed, per = arg
+    rng = random.Random(seed)
+    src = renumber_comments(src0)
+    if src is None:
+        return []
+    try:
+        tree, tg = targets(src)
+    except Exception:
+        return []
+    # statements nested in a block (so that there is an enclosing statement to edit), the LAST of their block first
+    cands = [t for t in tg if t[0] == 'stmt' and t[2] != 'Module' and t[3] in ('body', 'orelse', 'finalbody') and isinstance(t[6], ast.stmt)]
+    rng.shuffle(cands)
+    cands.sort(key=lambda t: t[4] != t[5] - 1)
+    out = []
+    lines = src.split('\n')
+    for (kind, p, pkind, fld, i, n, c) in cands[:per]:
+        path = _path(tree, p)
+        if path is None:
+            continue
+        has_comment = '#' in lines[c.end_lineno - 1][c.end_col_offset:] if c.end_lineno - 1 < len(lines) else False
+        accs = [('comment', rng.choice(ACC_COMMENTS[:2]), False), ('comment', rng.choice(ACC_COMMENTS), False)]
+        if has_comment:
+            accs += [('comment', ACC_COMMENTS[0], False), ('comment', None, False), ('comment', '  # full one, also longer than before', True)]
+        if isinstance(c, (ast.FunctionDef, ast.ClassDef, ast.AsyncFunctionDef)):
+            accs.append(('docstr', rng.choice(['New doc\n  with lines', None])))
+        if isinstance(c, (ast.Assign, ast.Return, ast.Expr)) and getattr(c, 'value', None) is not None:
+            accs.append(('par', rng.random() < 0.7))
+        for acc in accs:
+            if acc[0] == 'comment' and isinstance(c, COMPOUND):
+                continue            # the line comment of a block statement is its header's: keep to simple statements
+            hist = {'op': 'history', 'path': path, 'pkind': pkind, 'field': fld, 'idx': i, 'acc': list(acc),
+                    'up': rng.choice([1, 1, 1, 2, 0]), 'edit': rng.choice(['cut', 'remove', 'replace']),
+                    'trivia': rng.choice([True, False, 'all', ['none', 'none'], ['block', 'line']])}
+            try:
+                out.append(run_history(src, hist))
+            except Exception as ex:
+                out.append({'src': src, 'edit': hist, 'op': 'history', 'field': pkind + '.' + fld, 'violations': [], 'changed': False,
+                            'outcome': 'harness:' + type(ex).__name__ + ':' + str(ex)[:80], 'bad_spans': []})
+    import hashlib
+    for it in out:
+        it['key'] = hashlib.blake2b((it['src'] + repr(it['edit'])).encode(), digest_size=8).hexdigest()
+        if not it['violations'] and not it.get('bad_spans'):
+            it.pop('after', None)
+            it.pop('after_accessor', None)
+            it['src'] = it['src'][:300]
+    return out
+
+
+# ---------------------------------------------------------------------------------------------------------------------
+# option channels: the same edit with the same effective option value, given per call / `with FST.options()` /
+# `FST.set_options()`, has the same outcome (put paths: replace / remove / insert / slice delete; get paths: copy / cut)
+
+CHANNEL_OPTS = [('trivia', (False, False)), ('trivia', False), ('trivia', 'all'), ('trivia', ('none', 'all')), ('trivia', 'block+'),
+                ('trivia', ('all+', 'block+1')), ('pep8space', False), ('pep8space', 1), ('docstr', False), ('docstr', 'strict'),
+                ('elif_', False), ('pars', False), ('pars', True)]
+CHANNEL_OPS = ['replace', 'remove', 'insert', 'delslice', 'cut', 'copy']
+
+
+def _do_channel_op(root, path, fld, idx, op, code, opts):
+    f = _nav(root, path)
+    tgt = getattr(f.a, fld)[idx].f
+    extra = None
+    if op == 'replace':
+        tgt.replace(code, **opts)
+    elif op == 'remove':
+        tgt.remove(**opts)
+    elif op == 'insert':
+        f.put_slice(code, idx, idx, fld, **opts)
+    elif op == 'delslice':
+        f.put_slice(None, idx, idx + 1, fld, **opts)
+    elif op == 'cut':
+        extra = tgt.cut(**opts).src
+    elif op == 'copy':
+        extra = tgt.copy(**opts).src
+    return root.src, extra
+
+
+def run_channels(src, spec):
+    """spec = {'op': 'channels', 'path', 'pkind', 'field', 'idx', 'eop', 'code', 'opt': [name, value]}"""
+    from fst import FST
+    name, val = spec['opt']
+    val = tuple(val) if isinstance(val, list) else val
+    item = {'src': src, 'edit': spec, 'op': 'channels', 'field': spec['pkind'] + '.' + spec['field'], 'violations': [], 'changed': False,
+            'outcome': 'ok', 'bad_spans': []}
+    res = {}
+    for ch in ('call', 'with', 'set'):
+        try:
+            root = FST(src, 'exec')
+            if ch == 'call':
+                r = _do_channel_op(root, spec['path'], spec['field'], spec['idx'], spec['eop'], spec['code'], {name: val})
+            elif ch == 'with':
+                with FST.options(**{name: val}):
+                    r = _do_channel_op(root, spec['path'], spec['field'], spec['idx'], spec['eop'], spec['code'], {})
+            else:
+                old = FST.set_options(**{name: val})
+                try:
+                    r = _do_channel_op(root, spec['path'], spec['field'], spec['idx'], spec['eop'], spec['code'], {})
+                finally:
+                    FST.set_options(**old)
+        except Exception as ex:
+            r = ('raised:' + type(ex).__name__, None)
+        res[ch] = r
+    item['changed'] = res['call'][0] != src
+    if res['call'][0].startswith('raised:') and res['with'][0].startswith('raised:') and res['set'][0].startswith('raised:'):
+        item['outcome'] = 'raised'
+        return item
+    for ch in ('with', 'set'):
+        if res[ch] != res['call']:
+            item['violations'] = [{'cls': f'option-channel-differs@{name}', 'what': f'{spec["eop"]} with {name}={val!r} given per call and via '
+                                   f'{"FST.options()" if ch == "with" else "FST.set_options()"} have different results', 'detail':
+                                   {'per_call': res['call'], ch: res[ch]}}]
+            item['outcome'] = 'violation'
+            item['after'] = res[ch][0]
+            break
+    return item
+
+
+def channel_cases(arg):
+    src0, seed, per = arg
+    rng = random.Random(seed)
+    src = renumber_comments(src0)
+    if src is None:
+        return []
+    try:
+        tree, tg = targets(src)
+    except Exception:
+        return []
+    cands = [t for t in tg if t[0] == 'stmt' or t[2] in ('List', 'Tuple', 'Set', 'Call')]
+    rng.shuffle(cands)
+    out = []
+    k = 0
+    for (kind, p, pkind, fld, i, n, c) in cands[:per]:
+        path = _path(tree, p)
+        if path is None:
+            continue
+        for eop in CHANNEL_OPS:            # deterministic product ops x options, every channel
+            if eop in ('remove', 'delslice', 'cut') and n < 2:
+                continue
+            if kind == 'stmt' and fld in ('handlers',) and eop in ('replace', 'insert'):
+                continue
+            for name, val in CHANNEL_OPTS:
+                if kind == 'expr' and name in ('pep8space', 'docstr', 'elif_'):
+                    continue
+                if kind == 'stmt' and name == 'pars':
+                    continue
+                k += 1
+                code = ('zz = 9  # new1' if kind == 'stmt' else 'zz') if eop in ('replace', 'insert') else None
+                if kind == 'stmt' and fld == 'orelse' and name == 'elif_':
+                    code = 'if nn:  # new2\n    pass'
+                spec = {'op': 'channels', 'path': path, 'pkind': pkind, 'field': fld, 'idx': i, 'eop': eop, 'code': code,
+                        'opt': [name, list(val) if isinstance(val, tuple) else val]}
+                try:
+                    out.append(run_channels(src, spec))
+                except Exception as ex:
+                    out.append({'src': src, 'edit': spec, 'op': 'channels', 'field': pkind + '.' + fld, 'violations': [], 'changed': False,
+                                'outcome': 'harness:' + type(ex).__name__ + ':' + str(ex)[:80], 'bad_spans': []})
+    import hashlib
+    for it in out:
+        it['key'] = hashlib.blake2b((it['src'] + repr(it['edit'])).encode(), digest_size=8).hexdigest()
+        if not it['violations']:
+            it.pop('after', None)
+            it['src'] = it['src'][:200]
     return out
